@@ -8,29 +8,35 @@ import lib
 from checks import c05
 from checks import raftlog_common as rl
 
-TARGETS = ["Props/C04.v", "RaftLog/Script.v", "RaftLog/LogCrashScript.v"]
+TARGETS = ["Props/C04.v", "RaftLog/Script.v", "RaftLog/LogCrashScript.v", "RaftLog/LogCrashExamples.v"]
 
 MANIFEST = dict(
-    text="Theorem crash_safe_index over ALL histories and ALL crash points: for every history of writer operations and "
-         "reopens of the raft index file and EVERY prefix of the journal of file mutations it issues, the restarted store "
-         "reads back exactly the state after some prefix of the history (term, vote, membership, addresses, log/snapshot "
-         "catalogue, last_applied are values written before the crash, never a mixture or an invented value), and "
-         "applied_never_past_reproducible: a composition theorem over an abstract log/snapshot interface. Tied to the code by "
-         "crashfs: the harness runs histories against the REAL RaftIndexManager / FileStore under an LD_PRELOAD shim that "
-         "journals every write/pwrite/ftruncate/rename/unlink/create with path, offset and bytes; the runner materialises the "
-         "directory image of EVERY prefix of the OBSERVED journal, opens it with the real recovery code and with the model's "
-         "recover, and evaluates an independent oracle (recovers without error; metadata = some written value; last_applied "
-         "<= what the recovered log reproduces; log contiguous, only submitted entries).",
-    note="proof, partial. The model cannot exhibit: torn single writes (each write call is atomic in the model and in the "
-         "materialised images), fsync / power loss and directory-entry durability (the OS survives), and the blocking-pool "
-         "scheduling that decides in which order writes of different tokio handles/actors reach the OS (observed through the "
-         "journal, not controlled). The log and snapshot FILES are not modelled here (separate log model): they enter the "
-         "theorem only through the abstract interface [reproducible]; their crash images are judged by the oracle on the "
-         "real recovery code only. Snapshot data files are not exercised. Acknowledgements are journalled too (a mark written by the "
-         "caller when a save returns): an image whose prefix holds the mark of a save must reopen to a state that includes "
-         "it (class index:ack_before_write, repaired by a fix: commit; a return of the defect is a VIOLATION with the image).",
-    technique="Rocq proof (journal-prefix induction over the refinement invariant) + LD_PRELOAD syscall journal + "
-              "exhaustive crash-prefix replay on the real recovery code",
+    text="Theorems over ALL histories and ALL crash points. (1) Index file: crash_safe_index / crash_safe_acked — for every "
+         "history of writer operations and reopens and EVERY prefix of the journal of file mutations it issues, the restarted "
+         "store reads back exactly the state after some prefix of the history (term, vote, membership, addresses, catalogue, "
+         "last_applied are values written before the crash), and every acknowledged save is in every later image. (2) Log "
+         "file: crash_safe_log_append — for every history of appends to a fresh log file (all payloads, block boundaries, "
+         "file growth) and EVERY prefix of its journal (set_len / data write / index entry, in program order), the repaired "
+         "init succeeds and exposes exactly the records whose data write is in the prefix (contiguous, only submitted, none "
+         "missing), including the image where the data write completing a 128-block landed and its index entry did not "
+         "(init rebuilds the entry: C04_init_lagging_index). (3) crash_safe_store — log file + last_applied header with Raft's "
+         "discipline (applied only what was appended): in every crash state last_applied is 0 or below the recovered end "
+         "index. Tied to the code by crashfs: the real RaftIndexManager / FileStore / LogInnerManager run under an LD_PRELOAD "
+         "shim journalling every write/pwrite/ftruncate/rename/unlink/create; the observed journals must have the model's "
+         "shape (kind, offset, length); the directory / file image of EVERY prefix of the OBSERVED journal is reopened by the "
+         "real recovery code and by the model's init, then used (more appends, another reopen), and judged by an independent "
+         "oracle computed from the meaning of the mutations.",
+    note="proof, partial. Not covered by a theorem: crash images of delete-from (strip_log_to) — they are replayed "
+         "exhaustively on the real code and on the model for the generated histories (the three defects found this way are "
+         "repaired) and enumerated for one concrete history in RaftLog/LogCrashExamples.v; rollover across log files and the "
+         "catalogue-vs-new-log-file ordering (two actors), snapshot data files. The model cannot exhibit: torn single writes "
+         "(each write call is atomic in the model and in the materialised images), fsync / power loss and directory-entry "
+         "durability (the OS survives), and the blocking-pool scheduling that decides in which order writes of different "
+         "tokio handles/actors reach the OS (the observed order is recorded and compared, not controlled; the data and index "
+         "handles of one log file are two such handles). Acknowledgements are journalled too: an image whose prefix holds "
+         "the mark of a save must reopen to a state that includes it.",
+    technique="Rocq proof (journal-prefix induction over refinement invariants; canonical-state lemmas of the log model) + "
+              "LD_PRELOAD syscall journal + exhaustive crash-prefix replay on the real recovery code",
     design="3/C04",
 )
 HEADER = ("From RN Require Import Base.Res Codec.Varint RaftLog.IndexFile RaftLog.Script.\n"
@@ -570,7 +576,8 @@ def _run(chk, rng, quick, proofs_ok, base):
     chk.assumptions += [
         "crash model of the property: process death, OS survives, every write call atomic, applied in issue order",
         "the observed journal is ONE linearisation chosen by the tokio blocking pool; others are not enumerated",
-        "log and snapshot files: judged on the real recovery code only (oracle), abstract in the theorem",
+        "log file: append histories proved; delete-from images, rollover and snapshot files judged by replay only",
+        "log-file histories start at index 1 in a fresh file; payloads are pseudo-random bytes of 0..300 (one history 230000) bytes",
         "acknowledged-but-unflushed log entries may be absent from an image (the property demands only flushed ones)",
     ]
     chk.notes["crash_stats"] = stats
